@@ -54,6 +54,11 @@ def accepted(conn, p):
     return bool(sp is not None and (sp.discarded or p["pn"] in sp.ack_queue or p["pn"] in getattr(sp, "received_packets", ())))
 
 
+def is_vn(b):
+    """Version Negotiation packets are unauthenticated by design (RFC 9000 6) and excluded by the statement."""
+    return len(b) >= 5 and (b[0] & 0x80) and bytes(b[1:5]) == bytes(4)
+
+
 def mutations(raw, rnd, thorough):
     """Altered copies of one protected packet."""
     n = len(raw)
@@ -78,8 +83,9 @@ def mutations(raw, rnd, thorough):
             b[pos] = (b[pos] + 1 + rnd.randrange(254)) & 0xFF
         else:
             b[pos] ^= mask
-        if bytes(b) != raw:
-            res.append((kind, pos, bytes(b)))
+        if bytes(b) == raw or is_vn(b):
+            continue                      # an alteration that yields version 0 makes a Version Negotiation packet: excluded
+        res.append((kind, pos, bytes(b)))
     return res
 
 
@@ -227,6 +233,8 @@ def retry_rows(rnd):
         for pos in range(len(retry)):
             b = bytearray(retry)
             b[pos] ^= 1 << rnd.randrange(8)
+            if is_vn(b):
+                continue
             before = proj(conn)
             conn.receive_datagram(bytes(b), sim.SADDR, now=0.01)
             ev = 0
